@@ -3,3 +3,7 @@ import sdo_alpha
 VARIANTS = sdo_alpha.VARIANTS
 def run(ctx):
     sdo_alpha.run(ctx, "C04")
+    # the verdict of a request to a communication object depends on the state of the service it configures (PDO / SYNC / heartbeat / EMCY
+    # objects written while their service runs): expedited requests to those objects in the node as a whole (product model CoFull)
+    import full_check
+    full_check.run(ctx, 400 if ctx.tier == "quick" else 20000)
